@@ -27,7 +27,12 @@ type legalMove struct {
 	pos position.Position
 }
 
-func pseudoMoves(p *position.Position) []move.Move {
+func pseudoMoves(p *position.Position) (res []move.Move) {
+	defer func() {
+		if recover() != nil {
+			res = nil
+		}
+	}()
 	ml := move.NewMoveList()
 	p.GeneratePseudoLegalMoves(ml)
 	out := make([]move.Move, 0, ml.Length())
@@ -37,7 +42,12 @@ func pseudoMoves(p *position.Position) []move.Move {
 	return out
 }
 
-func captureMoves(p *position.Position) []move.Move {
+func captureMoves(p *position.Position) (res []move.Move) {
+	defer func() {
+		if recover() != nil {
+			res = nil
+		}
+	}()
 	ml := move.NewMoveList()
 	p.GeneratePseudoLegalCaptures(ml)
 	out := make([]move.Move, 0, ml.Length())
@@ -48,8 +58,13 @@ func captureMoves(p *position.Position) []move.Move {
 }
 
 // legalMoves is the engine's notion of playable moves (generate, make, IsLegal), as perft and search use it.
-func legalMoves(p *position.Position) []legalMove {
-	var out []legalMove
+func legalMoves(p *position.Position) (out []legalMove) {
+	// a changed engine may let a king be captured and then panic in IsInCheck: the generators must survive that
+	defer func() {
+		if recover() != nil {
+			out = nil
+		}
+	}()
 	for _, m := range pseudoMoves(p) {
 		q := *p
 		q.MakeMove(m)
@@ -165,6 +180,16 @@ func checkShape(p *position.Position) bool {
 		return false
 	}
 	return true
+}
+
+// inCheckSafe: IsInCheck that reports "in check" when the engine panics (no king of that colour)
+func inCheckSafe(p *position.Position, c types.Color) (res bool) {
+	defer func() {
+		if recover() != nil {
+			res = true
+		}
+	}()
+	return p.IsInCheck(c)
 }
 
 type posSource struct {
@@ -438,7 +463,7 @@ func execChess(args []string) string {
 			back := *p
 			var e2 error
 			pan2 := guard(func() { e2 = back.MakeMoveFromString(m.String()) })
-			line += fmt.Sprintf(" p.strback=%s", b2s(!pan2 && e2 == nil && deepEqual(&back, &q)))
+			line += fmt.Sprintf(" p.strback=%s p.strshape=%s", b2s(!pan2 && e2 == nil && deepEqual(&back, &q)), b2s(pan2 || e2 != nil || checkShape(&back)))
 		}
 		return line
 	case "mvs":
@@ -475,8 +500,8 @@ func execChess(args []string) string {
 			}
 			hist = append(hist, fmt.Sprintf("%016x", q.ZobristHash))
 		}
-		return fmt.Sprintf("res=ok dump=%s fen=%s hist=%s fullhash=%016x p.hash=%s",
-			dumpPos(q), fenField(q.ToFen()), strings.Join(hist, ","), q.VerifFullHash(), b2s(q.VerifFullHash() == q.ZobristHash))
+		return fmt.Sprintf("res=ok dump=%s fen=%s hist=%s fullhash=%016x p.hash=%s p.shape=%s",
+			dumpPos(q), fenField(q.ToFen()), strings.Join(hist, ","), q.VerifFullHash(), b2s(q.VerifFullHash() == q.ZobristHash), b2s(checkShape(q)))
 	case "null":
 		p, ok := posFromArg(args[1])
 		if !ok {
@@ -556,7 +581,7 @@ func emitPosition(o *Out, p *position.Position, rng *Rng, heavy bool) {
 	o.Run("fen " + h)
 	o.Run("gen " + h)
 	lms := legalMoves(p)
-	inCheck := p.IsInCheck(p.SideToMove)
+	inCheck := inCheckSafe(p, p.SideToMove)
 	if inCheck {
 		o.Stat("in_check")
 	}
@@ -663,7 +688,7 @@ func chessOps(o *Out, seed uint64, n int, tier string, corpusPath string) {
 			if err != nil {
 				continue
 			}
-			if p.IsInCheck(types.SwitchColor(p.SideToMove)) {
+			if inCheckSafe(p, types.SwitchColor(p.SideToMove)) {
 				continue // cheap pre-filter; the spec decides finally (s.wf)
 			}
 			o.Stat("src_random_material")
